@@ -260,6 +260,15 @@ func r121(c *Ctx, rule string) {
 				okArg = true
 			}
 		}
+		// (the write-out helper of the reference tree, writeStateFile, is always expanded into saveStateSnapshot: what is
+		// encoded is then the list the listing closure appended to)
+		if cell := cellOfLoad(stripConv(enc.Call.Args[1])); cell != nil {
+			for _, st := range storesToCell(cell) {
+				if st.Parent() != fn {
+					okArg = true
+				}
+			}
+		}
 		c.ob(rule, "encode/writes-the-listed-services", enc.Pos(), okArg, true, "")
 	}
 	// (whether a FAILED snapshot removes its temporary file is hygiene, not part of C12 - a leftover temp file never
@@ -278,16 +287,24 @@ func r122(c *Ctx, rule string) {
 	c.floor(rule, 5)
 	li := c.lockInfo()
 	save := c.method("Router", "saveStateSnapshot")
-	write := c.method("Router", "writeStateFile")
 	snapLock := c.field("Router", "snapshotLock")
 	lockOwner[snapLock] = "Router"
 	svcLock := c.field("Router", "serviceLock")
-	wcs := callsTo(save, write)
+	// "the write": where the new snapshot is created (the write-out helper of the reference tree, writeStateFile, is
+	// always expanded into saveStateSnapshot)
+	var wcs []callSite
+	for _, cs := range callsToName(save, "os.CreateTemp") {
+		wcs = append(wcs, cs)
+	}
 	if len(wcs) != 1 {
-		c.undecided(rule, "saveStateSnapshot/shape", save.Pos(), fmt.Sprintf("expected one writeStateFile call, found %d", len(wcs)))
+		c.undecided(rule, "saveStateSnapshot/shape", save.Pos(), fmt.Sprintf("expected one os.CreateTemp (the start of the write-out) in saveStateSnapshot, found %d", len(wcs)))
 		return
 	}
 	w := wcs[0].instr
+	var encArg ssa.Value
+	for _, cs := range callsToName(save, "(*encoding/json.Encoder).Encode") {
+		encArg = cs.common().Args[1]
+	}
 	c.ob(rule, "saveStateSnapshot/write-under-snapshot-mutex", w.Pos(), li.holds(w, snapLock, modeW), true, "held: "+li.before(w).String())
 	// listing: the closure(s) reading Router.services, entered under both locks
 	nList := 0
@@ -303,7 +320,7 @@ func r122(c *Ctx, rule string) {
 	c.ob(rule, "saveStateSnapshot/has-listing", save.Pos(), nList >= 1, false, "")
 	// the list written is the list gathered: writeStateFile's argument is the cell the listing appends to
 	okSame := false
-	if cell := cellOfLoad(wcs[0].common().Args[1]); cell != nil {
+	if cell := cellOfLoad(stripConv(encArg)); encArg != nil && cell != nil {
 		for _, st := range storesToCell(cell) {
 			if st.Parent() != save {
 				okSame = true // appended to inside the listing closure
@@ -318,10 +335,12 @@ func r122(c *Ctx, rule string) {
 	for _, cs := range callsTo(save, c.method("Router", "withReadLock")) {
 		c.ob(rule, "saveStateSnapshot/listing-before-write", cs.pos(), dominates(cs.instr, w), true, "")
 	}
-	// who may write the file
-	for _, u := range c.usesOfFunc(write) {
-		o := fname(outer(u.in))
-		c.ob(rule, "call writeStateFile <- "+o, u.instr.Pos(), o == "(*server.Router).saveStateSnapshot", false, "the state file is written only by saveStateSnapshot (under the snapshot mutex)")
+	// who may write the file: the one os.Rename of the module (R12.1) is in saveStateSnapshot
+	for _, fn := range c.proxyFuncs() {
+		for _, cs := range callsToName(fn, "os.Rename") {
+			o := fname(outer(fn))
+			c.ob(rule, "os.Rename <- "+o, cs.pos(), o == "(*server.Router).saveStateSnapshot", false, "the state file is replaced only by saveStateSnapshot (under the snapshot mutex)")
+		}
 	}
 }
 
